@@ -1,11 +1,12 @@
 (** C03: agreement of the implementation's observations with the repaired model implies the executable
     spec on those observations - through the C03 theorems (the model's pages ARE the graph).
-    For well-formed cases: queries with one start point and one page limit (any limit >= 0), predicates
-    given as non-negative codes, transactions over distinct datasets, results within the follow fuel. *)
+    For well-formed cases: queries over any list of DISTINCT start points with any list of page limits
+    (each >= 0; 0 = no limit), predicates given as non-negative codes, transactions over distinct
+    datasets, results within the follow fuel. *)
 From Coq Require Import List ZArith NArith Bool Lia Sorting.Permutation.
 From DH Require Import Lib.CheckLib Model.Store Model.Refs Model.Query Model.GraphSpec
      Proofs.StoreProofs Proofs.RefsProofs Proofs.QueryProofs Proofs.RefsInv Proofs.C03Paging Proofs.C03Proofs
-     Proofs.C06Proofs Check.C03Check.
+     Proofs.C06Proofs Proofs.C03Many Check.C03Check.
 Import ListNotations.
 Open Scope Z_scope.
 
@@ -189,7 +190,7 @@ Definition wf_qop (o : qop) : Prop :=
   match o with
   | QWrite w => wf_wop w
   | QKeys _ => True
-  | QRelated starts pred _ _ _ limits _ => (exists s, starts = [s]) /\ (exists L, limits = [L] /\ 0 <= L) /\ 0 <= pred
+  | QRelated starts pred _ _ _ limits _ => NoDup starts /\ Forall (fun l => 0 <= l) limits /\ 0 <= pred
   end.
 (** the results of every query fit into the fuel of [follow] (checked on the repaired model's keys) *)
 Fixpoint small_run (rs : rstore) (ops : list qop) : Prop :=
@@ -200,76 +201,122 @@ Fixpoint small_run (rs : rstore) (ops : list qop) : Prop :=
   end.
 Definition wf_case (c : tcase) : Prop := Forall wf_qop (tc_ops c) /\ small_run rstore0 (tc_ops c).
 
-Lemma unlimited_page_take E : forall res c, page_take 0 E res c = (res ++ E, None).
-Proof.
-  induction E as [|k E IH]; intros res c; cbn [page_take]; [now rewrite app_nil_r|].
-  rewrite at_limit_0, IH, <- app_assoc. reflexivity.
-Qed.
-
-Lemma out_emits_incl fact ks : forall seen added, incl (out_emits fact ks seen added) ks.
-Proof. intros seen added k Hk. eapply out_emits_sub. exact Hk. Qed.
-
-Lemma NoDup_incl_length_rk (l l' : list rk) : NoDup l -> incl l l' -> (length l <= length l')%nat.
-Proof. apply NoDup_incl_length. Qed.
-
-(** the repaired model's pages for a single start point are the unlimited result, all definite *)
-Lemma fixed_pages_out fl dm ops rs fr L :
-  reachable fl dm ops rs -> f_inv fr = false -> f_key fr = None -> 0 <= L -> (length (rs_keys rs) < fuel0)%nat ->
-  let pages := follow q_fixed (rs_keys rs) [fr] [L] 0 fuel0 in
-  concat pages = map RDef (fst (related_out false (rs_keys rs) fr 0)) /\ (forall mp, In mp pages -> all_def mp).
-Proof.
-  intros Hr Hinv Hkey HL Hsmall. destruct (reachable_inv _ _ _ _ Hr) as [Hnd _].
-  assert (HU : fst (related_out false (rs_keys rs) fr 0) = E_out (rs_keys rs) fr).
-  { rewrite (related_out_page _ _ 0 Hnd) by (left; exact Hkey). rewrite Hkey. cbn [rest]. now rewrite unlimited_page_take. }
-  assert (Hlen : (length (E_out (rs_keys rs) fr) < fuel0)%nat).
-  { eapply Nat.le_lt_trans; [|exact Hsmall]. apply NoDup_incl_length.
-    - unfold E_out. pose proof (out_emits_nodup ofact (filter (pass fr) (out_view (rs_keys rs) (f_start fr))) [] []) as [Hn _].
-      eapply NoDup_map_inv. exact Hn.
-    - intros k Hk. apply out_emits_incl in Hk. apply filter_In in Hk. destruct Hk as [Hk _]. apply out_view_In in Hk. tauto. }
-  destruct (Z.eq_dec L 0) as [->|HLne].
-  - (* no limit: one page *)
-    cbv zeta. unfold fuel0. cbn [follow]. rewrite nth_limit_const. cbn [Z.eqb many_related Z.ltb orb].
-    unfold related. rewrite Hinv. cbn [q_fixed q_noadd].
-    pose proof (related_out_page (rs_keys rs) fr 0 Hnd (or_introl Hkey)) as Hp. rewrite Hkey in Hp. cbn [rest] in Hp.
-    rewrite unlimited_page_take in Hp. cbn [app] in Hp. rewrite Hp. cbn [option_map fst Z.ltb Z.compare orb]. rewrite app_nil_r.
-    cbn [concat]. rewrite app_nil_r. split; [reflexivity|]. intros mp [<-|[]]. apply all_def_map.
-  - pose proof (outgoing_paging fl dm ops rs q_fixed fr L fuel0 Hr eq_refl Hinv Hkey ltac:(lia)) as Hpg.
-    rewrite HU in Hpg. specialize (Hpg Hlen). cbv zeta in Hpg. destruct Hpg as [Hc _]. rewrite HU. split; [exact Hc|].
-    pose proof (follow_out_pages q_fixed (rs_keys rs) fr L Hnd ltac:(lia) eq_refl Hinv Hkey fuel0 0%nat None (or_introl eq_refl)) as Hf.
-    cbn [with_start] in Hf. cbv zeta. rewrite Hf. intros mp Hmp. apply in_map_iff in Hmp. destruct Hmp as (pg & <- & _). apply all_def_map.
-Qed.
-
-Lemma fixed_pages_in fl dm ops rs fr L :
-  reachable fl dm ops rs -> f_inv fr = true -> f_key fr = None -> 0 <= L -> (length (rs_keys rs) < fuel0)%nat ->
-  let pages := follow q_fixed (rs_keys rs) [fr] [L] 0 fuel0 in
-  concat pages = map RDef (fst (related_in_fixed (rs_keys rs) fr 0)) /\ (forall mp, In mp pages -> all_def mp).
-Proof.
-  intros Hr Hinv Hkey HL Hsmall. destruct (reachable_inv _ _ _ _ Hr) as [Hnd _].
-  assert (HU : fst (related_in_fixed (rs_keys rs) fr 0) = E_in (rs_keys rs) fr).
-  { rewrite (related_in_fixed_page _ _ 0 Hnd) by (left; exact Hkey). rewrite Hkey. cbn [rest]. now rewrite unlimited_page_take. }
-  assert (Hlen : (length (E_in (rs_keys rs) fr) < fuel0)%nat).
-  { eapply Nat.le_lt_trans; [|exact Hsmall]. apply NoDup_incl_length.
-    - unfold E_in. pose proof (out_emits_nodup ifact (filter (pass fr) (in_view_desc (rs_keys rs) (f_start fr))) [] []) as [Hn _].
-      eapply NoDup_map_inv. exact Hn.
-    - intros k Hk. apply out_emits_incl in Hk. apply filter_In in Hk. destruct Hk as [Hk _]. apply in_view_desc_In in Hk. tauto. }
-  destruct (Z.eq_dec L 0) as [->|HLne].
-  - cbv zeta. unfold fuel0. cbn [follow]. rewrite nth_limit_const. cbn [Z.eqb many_related Z.ltb orb].
-    unfold related, related_in. rewrite Hinv. cbn [q_fixed q_inv1].
-    pose proof (related_in_fixed_page (rs_keys rs) fr 0 Hnd (or_introl Hkey)) as Hp. rewrite Hkey in Hp. cbn [rest] in Hp.
-    rewrite unlimited_page_take in Hp. cbn [app] in Hp. rewrite Hp. cbn [option_map fst Z.ltb Z.compare orb]. rewrite app_nil_r.
-    cbn [concat]. rewrite app_nil_r. split; [reflexivity|]. intros mp [<-|[]]. apply all_def_map.
-  - pose proof (incoming_paging fl dm ops rs q_fixed fr L fuel0 Hr eq_refl Hinv Hkey ltac:(lia)) as Hpg.
-    rewrite HU in Hpg. specialize (Hpg Hlen). cbv zeta in Hpg. destruct Hpg as [Hc _]. rewrite HU. split; [exact Hc|].
-    pose proof (follow_in_pages q_fixed (rs_keys rs) fr L Hnd ltac:(lia) eq_refl Hinv Hkey fuel0 0%nat None (or_introl eq_refl)) as Hf.
-    cbn [with_start] in Hf. cbv zeta. rewrite Hf. intros mp Hmp. apply in_map_iff in Hmp. destruct Hmp as (pg & <- & _). apply all_def_map.
-Qed.
-
 Lemma NoDup_map_inj {A B} (f : A -> B) l : (forall x y, In x l -> In y l -> f x = f y -> x = y) -> NoDup l -> NoDup (map f l).
 Proof.
   intros Hinj. induction 1 as [|x l Hx Hn IH]; cbn [map]; [constructor|]. constructor.
   - intros Hin. apply in_map_iff in Hin. destruct Hin as (y & He & Hy).
     assert (y = x) by (apply Hinj; [now right | now left | assumption]). subst. contradiction.
   - apply IH. intros a b Ha Hb. apply Hinj; now right.
+Qed.
+
+Lemma NoDup_map_fact {A} (f : rk -> A) (U : list rk) : NoDup (map f U) -> forall a b, In a U -> In b U -> f a = f b -> a = b.
+Proof.
+  induction U as [|u U IH]; intros Hn a b Ha Hb Hf; [destruct Ha|]. cbn [map] in Hn. inversion Hn as [|? ? Hnu Hn']; subst.
+  destruct Ha as [->|Ha], Hb as [->|Hb]; try reflexivity.
+  - exfalso. apply Hnu. rewrite Hf. now apply in_map.
+  - exfalso. apply Hnu. rewrite <- Hf. now apply in_map.
+  - now apply IH.
+Qed.
+
+Lemma NoDup_app_intro {A} (a b : list A) : NoDup a -> NoDup b -> (forall x, In x a -> ~ In x b) -> NoDup (a ++ b).
+Proof.
+  induction 1 as [|x a Hx Hn IH]; intros Hb Hd; cbn [app]; [assumption|]. constructor.
+  - intros Hin. apply in_app_or in Hin. destruct Hin as [Hin|Hin]; [contradiction | apply (Hd x); [now left | assumption]].
+  - apply IH; [assumption | intros y Hy; apply Hd; now right].
+Qed.
+
+Lemma NoDup_flat_map {A B} (f : A -> list B) l :
+  NoDup l -> (forall a, In a l -> NoDup (f a)) ->
+  (forall a b x, In a l -> In b l -> In x (f a) -> In x (f b) -> a = b) -> NoDup (flat_map f l).
+Proof.
+  induction 1 as [|a l Ha Hn IH]; intros H1 H2; cbn [flat_map]; [constructor|].
+  apply NoDup_app_intro.
+  - apply H1. now left.
+  - apply IH; [intros; apply H1; now right | intros a0 b x Ha0 Hb; apply H2; now right].
+  - intros x Hx Hx'. apply in_flat_map in Hx'. destruct Hx' as (b & Hb & Hxb).
+    assert (a = b) by (apply (H2 a b x); [now left | now right | assumption | assumption]). subst. contradiction.
+Qed.
+
+Definition gedges (st : store) (fr : rfrom) : list (Z * Z * Z) :=
+  map (fun f => (f_start fr, fst f, snd f))
+      (if f_inv fr then graph_in st (f_at fr) (f_scope fr) (f_start fr) (f_pred fr)
+       else graph_out st (f_at fr) (f_scope fr) (f_start fr) (f_pred fr)).
+
+(** the unlimited result of one start point, as the client sees it: exactly the edges of the graph, each once *)
+Lemma Eof_obs fl dm ops rs fr :
+  reachable fl dm ops rs -> ds_sorted (s_ds (rs_st rs)) -> f_key fr = None -> 0 <= f_pred fr ->
+  NoDup (map (obs_of (f_inv fr)) (Eof (rs_keys rs) fr))
+  /\ (forall x, In x (map (obs_of (f_inv fr)) (Eof (rs_keys rs) fr)) <-> In x (gedges (rs_st rs) fr))
+  /\ (forall k, In k (Eof (rs_keys rs) fr) -> In k (rs_keys rs) /\ fst (fst (obs_of (f_inv fr) k)) = f_start fr).
+Proof.
+  intros Hr Hs Hkey Hpred. destruct (reachable_inv _ _ _ _ Hr) as [Hnd _].
+  unfold Eof, gedges. destruct (f_inv fr) eqn:Einv.
+  - assert (HU : fst (related_in_fixed (rs_keys rs) fr 0) = E_in (rs_keys rs) fr).
+    { rewrite (related_in_fixed_page _ _ 0 Hnd) by (left; exact Hkey). rewrite Hkey. cbn [rest]. now rewrite page_take_unlimited. }
+    pose proof (incoming_is_graph fl dm ops rs fr Hr Hkey) as Hg.
+    pose proof (in_scan_char (rs_keys rs) fr Hnd Hkey) as Hsc.
+    destruct (related_in_fixed (rs_keys rs) fr 0) as [U cont]. cbn [fst] in HU. subst U.
+    destruct Hg as (_ & HndU & Hchar). destruct Hsc as (_ & _ & Hsub & _).
+    assert (Hobs : forall k, In k (E_in (rs_keys rs) fr) -> obs_of true k = (f_start fr, r_pred k, r_src k)).
+    { intros k Hk. unfold obs_of. destruct (Hsub k Hk) as (_ & Ht & _). now rewrite Ht. }
+    split; [|split].
+    + apply NoDup_map_inj; [|eapply NoDup_map_inv; exact HndU].
+      intros a b Ha Hb. rewrite (Hobs a Ha), (Hobs b Hb). intros [= H1 H2].
+      apply (NoDup_map_fact ifact _ HndU a b Ha Hb). unfold ifact. congruence.
+    + intros x. rewrite !in_map_iff. split.
+      * intros (k & <- & Hk). rewrite (Hobs k Hk). exists (r_pred k, r_src k). split; [reflexivity|].
+        apply (graph_in_char _ _ _ _ _ _ _ Hs). rewrite <- (pred_pass_okb fr) by exact Hpred. apply Hchar.
+        apply in_map_iff. exists k. split; [reflexivity | assumption].
+      * intros ([p src] & <- & Hf). apply (graph_in_char _ _ _ _ _ _ _ Hs) in Hf.
+        rewrite <- (pred_pass_okb fr) in Hf by exact Hpred. apply Hchar in Hf. apply in_map_iff in Hf.
+        destruct Hf as (k & Hfk & Hk). exists k. split; [|assumption]. rewrite (Hobs k Hk). unfold ifact in Hfk. now injection Hfk as -> ->.
+    + intros k Hk. split; [apply (Hsub k Hk)|]. now rewrite (Hobs k Hk).
+  - assert (HU : fst (related_out false (rs_keys rs) fr 0) = E_out (rs_keys rs) fr).
+    { rewrite (related_out_page _ _ 0 Hnd) by (left; exact Hkey). rewrite Hkey. cbn [rest]. now rewrite page_take_unlimited. }
+    pose proof (outgoing_is_graph fl dm ops rs false fr Hr Hkey) as Hg.
+    pose proof (out_scan_char false (rs_keys rs) fr Hnd Hkey) as Hsc.
+    destruct (related_out false (rs_keys rs) fr 0) as [U cont]. cbn [fst] in HU. subst U.
+    destruct Hg as (_ & HndU & Hchar). destruct Hsc as (_ & _ & Hsub & _).
+    assert (Hobs : forall k, In k (E_out (rs_keys rs) fr) -> obs_of false k = (f_start fr, r_pred k, r_tgt k)).
+    { intros k Hk. unfold obs_of. destruct (Hsub k Hk) as (_ & Ht & _). now rewrite Ht. }
+    split; [|split].
+    + apply NoDup_map_inj; [|eapply NoDup_map_inv; exact HndU].
+      intros a b Ha Hb. rewrite (Hobs a Ha), (Hobs b Hb). intros [= H1 H2].
+      apply (NoDup_map_fact ofact _ HndU a b Ha Hb). unfold ofact. congruence.
+    + intros x. rewrite !in_map_iff. split.
+      * intros (k & <- & Hk). rewrite (Hobs k Hk). exists (r_pred k, r_tgt k). split; [reflexivity|].
+        apply (graph_out_char _ _ _ _ _ _ _ Hs). rewrite <- (pred_pass_okb fr) by exact Hpred. apply Hchar.
+        apply in_map_iff. exists k. split; [reflexivity | assumption].
+      * intros ([p tgt] & <- & Hf). apply (graph_out_char _ _ _ _ _ _ _ Hs) in Hf.
+        rewrite <- (pred_pass_okb fr) in Hf by exact Hpred. apply Hchar in Hf. apply in_map_iff in Hf.
+        destruct Hf as (k & Hfk & Hk). exists k. split; [|assumption]. rewrite (Hobs k Hk). unfold ofact in Hfk. now injection Hfk as -> ->.
+    + intros k Hk. split; [apply (Hsub k Hk)|]. now rewrite (Hobs k Hk).
+Qed.
+
+(** the repaired model returns definite results only *)
+Lemma related_all_def q K fr l : q_inv1 q = false -> all_def (fst (related q K fr l)).
+Proof.
+  intros Hq. unfold related, related_in. rewrite Hq. destruct (f_inv fr).
+  - destruct (related_in_fixed K fr l) as [rs c]. cbn [fst]. apply all_def_map.
+  - destruct (related_out (q_noadd q) K fr l) as [rs c]. cbn [fst]. apply all_def_map.
+Qed.
+Lemma many_related_all_def q K froms : q_inv1 q = false -> forall l u, all_def (fst (many_related q K froms l u)).
+Proof.
+  intros Hq. induction froms as [|fr froms IH]; intros l u; cbn [many_related]; [intros r []|].
+  destruct ((0 <? l) || u).
+  - pose proof (related_all_def q K fr l Hq) as H1. destruct (related q K fr l) as [rs c]. cbn [fst] in H1.
+    specialize (IH (Z.max (l - len rs) 0) u). destruct (many_related q K froms (Z.max (l - len rs) 0) u) as [rs2 cs2]. cbn [fst] in *.
+    intros r Hr. apply in_app_or in Hr. destruct Hr; [now apply H1 | now apply IH].
+  - specialize (IH l u). destruct (many_related q K froms l u) as [rs2 cs2]. exact IH.
+Qed.
+Lemma follow_all_def q K limits : q_inv1 q = false -> forall fuel froms p mp, In mp (follow q K froms limits p fuel) -> all_def mp.
+Proof.
+  intros Hq. induction fuel as [|fuel IH]; intros froms p mp; cbn [follow]; [intros []|].
+  pose proof (many_related_all_def q K froms Hq (nth_limit limits p) (Z.eqb (nth_limit limits p) 0)) as H1.
+  destruct (many_related q K froms (nth_limit limits p) (Z.eqb (nth_limit limits p) 0)) as [rs cs]. cbn [fst] in H1.
+  destruct cs as [|c cs]; [intros [<-|[]]; exact H1|].
+  destruct (nth_limit limits p <=? 0); [intros [<-|[]]; exact H1|].
+  intros [<-|H]; [exact H1 | now apply (IH _ _ _ H)].
 Qed.
 
 (** ** one query *)
@@ -279,82 +326,70 @@ Lemma agree_op_spec fl dm ops rs dss o :
   agree_op v_fixed dss rs o = true -> spec_op_ok dss rs o = true.
 Proof.
   intros Hr Hs Hwf Hsmall. destruct o as [w|ks|starts pred inverse req at_ limits o_pages]; try reflexivity.
-  destruct Hwf as ((s & ->) & (L & -> & HL) & Hpred).
+  destruct Hwf as (Hnds & Hlims & Hpred).
   unfold agree_op, spec_op_ok, query_pages. cbn [v_fixed mk_variant v_q].
   destruct (negb (Z.eqb pred 0) && negb (zmem pred (rs_known rs))) eqn:Eref.
   { destruct o_pages; [discriminate | reflexivity]. }
-  unfold to_related_from, spec_edges. cbn [forallb]. rewrite andb_true_r.
-  destruct (zmem s (rs_known rs)) eqn:Eknown.
+  unfold to_related_from, spec_edges.
+  destruct (forallb (fun s => zmem s (rs_known rs)) starts) eqn:Eknown.
   2:{ destruct o_pages as [ops'|]; [|discriminate]. cbn [pages_match].
       destruct ops' as [|op [|? ?]]; try discriminate.
       - rewrite andb_true_r. unfold page_matches. cbn [match_defs match_choices]. destruct op; [reflexivity | discriminate].
       - rewrite andb_false_r. discriminate. }
   destruct o_pages as [ops'|]; [|discriminate].
-  cbn [map flat_map]. rewrite app_nil_r.
-  set (fr := {| f_start := s; f_key := None; f_pred := pred; f_inv := inverse;
-                f_scope := resolve_scope {| q_inv1 := false; q_scope_all := false; q_noadd := false |} dss req; f_at := at_ |}).
-  change (resolve_scope {| q_inv1 := false; q_scope_all := false; q_noadd := false |} dss req) with (spec_scope dss req) in fr.
   change {| q_inv1 := false; q_scope_all := false; q_noadd := false |} with q_fixed.
-  intros Hmatch.
-  destruct inverse.
-  - (* incoming *)
-    destruct (fixed_pages_in fl dm ops rs fr L Hr eq_refl eq_refl HL Hsmall) as [Hc Hd].
-    pose proof (pages_match_perm true _ _ Hd Hmatch) as Hperm. rewrite Hc, def_keys_map in Hperm.
-    pose proof (incoming_is_graph fl dm ops rs fr Hr eq_refl) as Hg.
-    pose proof (in_scan_char (rs_keys rs) fr (proj1 (reachable_inv _ _ _ _ Hr)) eq_refl) as Hsc.
-    destruct (related_in_fixed (rs_keys rs) fr 0) as [U cont]. cbn [fst] in Hperm.
-    destruct Hg as (_ & HndU & Hchar). destruct Hsc as (_ & _ & Hsub & _).
-    assert (Hobs : forall k, In k U -> obs_of true k = (s, r_pred k, r_src k)).
-    { intros k Hk. unfold obs_of. destruct (Hsub k Hk) as (_ & Ht & _). cbn [fr f_start] in Ht. now rewrite Ht. }
-    assert (Hmem : forall x, In x (concat ops') <-> In x (map (fun f => (s, fst f, snd f)) (graph_in (rs_st rs) at_ (spec_scope dss req) s pred))).
-    { intros x. rewrite (Permutation_in' eq_refl Hperm). fold (In x). rewrite !in_map_iff. split.
-      - intros (k & <- & Hk). rewrite (Hobs k Hk). exists (r_pred k, r_src k). split; [reflexivity|].
-        apply (graph_in_char _ _ _ _ _ _ _ Hs). rewrite <- (pred_pass_okb fr) by exact Hpred. apply Hchar.
-        apply in_map_iff. exists k. split; [reflexivity | assumption].
-      - intros ([p src] & <- & Hf). apply (graph_in_char _ _ _ _ _ _ _ Hs) in Hf.
-        rewrite <- (pred_pass_okb fr) in Hf by exact Hpred. apply Hchar in Hf. apply in_map_iff in Hf.
-        destruct Hf as (k & Hfk & Hk). exists k. split; [|assumption]. rewrite (Hobs k Hk). unfold ifact in Hfk. now injection Hfk as -> ->. }
-    rewrite !andb_true_iff. split; [split|].
-    + apply sub3_incl. intros x Hx. now apply Hmem.
-    + apply sub3_incl. intros x Hx. now apply Hmem.
-    + apply nodup3_NoDup. eapply Permutation_NoDup; [apply Permutation_sym, Hperm|].
-      apply NoDup_map_inj; [|eapply NoDup_map_inv; exact HndU].
-      intros a b Ha Hb. rewrite (Hobs a Ha), (Hobs b Hb). intros [= H1 H2].
-      assert (Hf : ifact a = ifact b) by (unfold ifact; congruence).
-      clear - HndU Ha Hb Hf. induction U as [|u U IH]; [destruct Ha|]. cbn [map] in HndU. inversion HndU as [|? ? Hnu HndU']; subst.
-      destruct Ha as [->|Ha], Hb as [->|Hb]; try reflexivity.
-      * exfalso. apply Hnu. rewrite Hf. now apply in_map.
-      * exfalso. apply Hnu. rewrite <- Hf. now apply in_map.
-      * now apply IH.
-  - (* outgoing *)
-    destruct (fixed_pages_out fl dm ops rs fr L Hr eq_refl eq_refl HL Hsmall) as [Hc Hd].
-    pose proof (pages_match_perm false _ _ Hd Hmatch) as Hperm. rewrite Hc, def_keys_map in Hperm.
-    pose proof (outgoing_is_graph fl dm ops rs false fr Hr eq_refl) as Hg.
-    pose proof (out_scan_char false (rs_keys rs) fr (proj1 (reachable_inv _ _ _ _ Hr)) eq_refl) as Hsc.
-    destruct (related_out false (rs_keys rs) fr 0) as [U cont]. cbn [fst] in Hperm.
-    destruct Hg as (_ & HndU & Hchar). destruct Hsc as (_ & _ & Hsub & _).
-    assert (Hobs : forall k, In k U -> obs_of false k = (s, r_pred k, r_tgt k)).
-    { intros k Hk. unfold obs_of. destruct (Hsub k Hk) as (_ & Ht & _). cbn [fr f_start] in Ht. now rewrite Ht. }
-    assert (Hmem : forall x, In x (concat ops') <-> In x (map (fun f => (s, fst f, snd f)) (graph_out (rs_st rs) at_ (spec_scope dss req) s pred))).
-    { intros x. rewrite (Permutation_in' eq_refl Hperm). fold (In x). rewrite !in_map_iff. split.
-      - intros (k & <- & Hk). rewrite (Hobs k Hk). exists (r_pred k, r_tgt k). split; [reflexivity|].
-        apply (graph_out_char _ _ _ _ _ _ _ Hs). rewrite <- (pred_pass_okb fr) by exact Hpred. apply Hchar.
-        apply in_map_iff. exists k. split; [reflexivity | assumption].
-      - intros ([p tgt] & <- & Hf). apply (graph_out_char _ _ _ _ _ _ _ Hs) in Hf.
-        rewrite <- (pred_pass_okb fr) in Hf by exact Hpred. apply Hchar in Hf. apply in_map_iff in Hf.
-        destruct Hf as (k & Hfk & Hk). exists k. split; [|assumption]. rewrite (Hobs k Hk). unfold ofact in Hfk. now injection Hfk as -> ->. }
-    rewrite !andb_true_iff. split; [split|].
-    + apply sub3_incl. intros x Hx. now apply Hmem.
-    + apply sub3_incl. intros x Hx. now apply Hmem.
-    + apply nodup3_NoDup. eapply Permutation_NoDup; [apply Permutation_sym, Hperm|].
-      apply NoDup_map_inj; [|eapply NoDup_map_inv; exact HndU].
-      intros a b Ha Hb. rewrite (Hobs a Ha), (Hobs b Hb). intros [= H1 H2].
-      assert (Hf : ofact a = ofact b) by (unfold ofact; congruence).
-      clear - HndU Ha Hb Hf. induction U as [|u U IH]; [destruct Ha|]. cbn [map] in HndU. inversion HndU as [|? ? Hnu HndU']; subst.
-      destruct Ha as [->|Ha], Hb as [->|Hb]; try reflexivity.
-      * exfalso. apply Hnu. rewrite Hf. now apply in_map.
-      * exfalso. apply Hnu. rewrite <- Hf. now apply in_map.
-      * now apply IH.
+  set (mk := fun s => {| f_start := s; f_key := None; f_pred := pred; f_inv := inverse;
+                         f_scope := resolve_scope q_fixed dss req; f_at := at_ |}).
+  intros Hmatch. destruct (reachable_inv _ _ _ _ Hr) as [Hnd _].
+  set (K := rs_keys rs) in *. set (froms := map mk starts) in *.
+  (* every start point's unlimited result, as observed triples *)
+  assert (Hfr : forall s, f_key (mk s) = None /\ 0 <= f_pred (mk s) /\ f_inv (mk s) = inverse /\ f_start (mk s) = s) by (intros; cbn; auto).
+  assert (Hobs := fun s => Eof_obs fl dm ops rs (mk s) Hr Hs eq_refl Hpred). cbn [mk f_inv] in Hobs. fold K in Hobs.
+  (* the results of distinct start points are disjoint sets of keys *)
+  assert (Hdisj : forall a b x, In a starts -> In b starts -> In x (Eof K (mk a)) -> In x (Eof K (mk b)) -> a = b).
+  { intros a b x _ _ Ha Hb. destruct (Hobs a) as (_ & _ & Hka). destruct (Hobs b) as (_ & _ & Hkb).
+    destruct (Hka x Ha) as [_ H1]. destruct (Hkb x Hb) as [_ H2]. cbn [mk f_start] in H1, H2. congruence. }
+  assert (HndAll : NoDup (flat_map (Eof K) froms)).
+  { unfold froms. rewrite flat_map_concat_map, map_map, <- flat_map_concat_map.
+    apply NoDup_flat_map; [exact Hnds | intros; apply Eof_NoDup | exact Hdisj]. }
+  assert (Hlen : (length (flat_map (Eof K) froms) < fuel0)%nat).
+  { eapply Nat.le_lt_trans; [|exact Hsmall]. apply NoDup_incl_length; [exact HndAll|].
+    intros k Hk. unfold froms in Hk. apply in_flat_map in Hk. destruct Hk as (fr & Hfr' & Hk). apply in_map_iff in Hfr'.
+    destruct Hfr' as (s & <- & _). destruct (Hobs s) as (_ & _ & Hks). apply (Hks k Hk). }
+  destruct (follow_many_first q_fixed K limits froms fuel0 Hnd eq_refl eq_refl Hlims) as [Hc _].
+  { unfold froms. apply Forall_forall. intros fr Hfr'. apply in_map_iff in Hfr'. destruct Hfr' as (s & <- & _). reflexivity. }
+  { exact Hlen. }
+  assert (Hc' : concat (follow q_fixed K froms limits 0 fuel0) = map RDef (flat_map (Eof K) froms)).
+  { rewrite Hc. unfold froms. clear - Hnd. induction starts as [|s starts IH]; cbn [map flat_map]; [reflexivity|].
+    rewrite map_app, IH. now rewrite (unlimited_is_Eof q_fixed K (mk s) Hnd eq_refl eq_refl eq_refl). }
+  pose proof (pages_match_perm inverse _ _ (follow_all_def q_fixed K limits eq_refl fuel0 froms 0%nat) Hmatch) as Hperm.
+  rewrite Hc', def_keys_map in Hperm.
+  (* observed triples = edges of the graph *)
+  assert (Hmem : forall x, In x (concat ops') <->
+                  In x (flat_map (fun s => map (fun f => (s, fst f, snd f))
+                          (if inverse then graph_in (rs_st rs) at_ (spec_scope dss req) s pred
+                           else graph_out (rs_st rs) at_ (spec_scope dss req) s pred)) starts)).
+  { intros x. rewrite (Permutation_in' eq_refl Hperm). fold (In x).
+    rewrite in_map_iff, in_flat_map. split.
+    - intros (k & <- & Hk). unfold froms in Hk. apply in_flat_map in Hk. destruct Hk as (fr & Hfr' & Hk).
+      apply in_map_iff in Hfr'. destruct Hfr' as (s & <- & Hs'). exists s. split; [assumption|].
+      destruct (Hobs s) as (_ & Hm & _). specialize (Hm (obs_of inverse k)). unfold gedges in Hm. cbn [mk f_inv f_start f_at f_scope f_pred] in Hm.
+      apply Hm. now apply in_map.
+    - intros (s & Hs' & Hx). destruct (Hobs s) as (_ & Hm & _). specialize (Hm x). unfold gedges in Hm. cbn [mk f_inv f_start f_at f_scope f_pred] in Hm.
+      apply Hm in Hx. apply in_map_iff in Hx. destruct Hx as (k & <- & Hk). exists k. split; [reflexivity|].
+      unfold froms. apply in_flat_map. exists (mk s). split; [now apply in_map | assumption]. }
+  rewrite !andb_true_iff. split; [split|].
+  - apply sub3_incl. intros x Hx. now apply Hmem.
+  - apply sub3_incl. intros x Hx. now apply Hmem.
+  - apply nodup3_NoDup. eapply Permutation_NoDup; [apply Permutation_sym, Hperm|].
+    apply NoDup_map_inj; [|exact HndAll].
+    intros a b Ha Hb He. unfold froms in Ha, Hb. apply in_flat_map in Ha, Hb.
+    destruct Ha as (fa & Hfa & Ha). destruct Hb as (fb & Hfb & Hb). apply in_map_iff in Hfa, Hfb.
+    destruct Hfa as (sa & <- & Hsa). destruct Hfb as (sb & <- & Hsb).
+    destruct (Hobs sa) as (Hna & _ & Hka). destruct (Hobs sb) as (_ & _ & Hkb).
+    assert (sa = sb).
+    { destruct (Hka a Ha) as [_ H1]. destruct (Hkb b Hb) as [_ H2]. cbn [mk f_start] in H1, H2. rewrite He in H1. congruence. }
+    subst sb. apply (NoDup_map_fact (obs_of inverse) _ Hna a b Ha Hb He).
 Qed.
 
 (** ** histories *)
